@@ -3,6 +3,7 @@ from __future__ import annotations
 import copy, json, random
 from ..common import Result, Violation, run_driver, canon_hash
 from ..aghist import Gen, Impl, canon_obs, canon_out, consistent, rejected_clean
+from ..langgen import jtxt
 
 ASSUMPTIONS = [
     'json / PyYAML round trips behave like jsonRT (id keys of inner dictionaries become strings) / yamlRT (identity) on the document model; exercised through real files',
@@ -19,9 +20,9 @@ WEIGHTS = {'add_node': 8, 'link': 10, 'remove_node': 1, 'add_attacker': 4, 'remo
 
 def preserved(g, with_asset):
     """what the property says a save / load keeps"""
-    return {'nodes': sorted([n.id, n.name, n.type, json.dumps(n.ttc, sort_keys=True), n.defense_status, n.existence_status, n.is_viable,
+    return {'nodes': sorted([n.id, n.name, n.type, jtxt(n.ttc), n.defense_status, n.existence_status, n.is_viable,
                              n.is_necessary, n.mitre_info, [type(t).__name__ + ':' + str(t) for t in n.tags] if isinstance(n.tags, list) else repr(n.tags),
-                             json.dumps(n.extras, sort_keys=True)] + ([n.asset.name if n.asset else None] if with_asset else []) for n in g.nodes),
+                             jtxt(n.extras)] + ([n.asset.name if n.asset else None] if with_asset else []) for n in g.nodes),
             'edges': sorted({(n.id, c.id) for n in g.nodes for c in n.children}),
             'parent_edges': sorted({(p.id, n.id) for n in g.nodes for p in n.parents}),
             'attackers': sorted([a.id, a.name, sorted({n.id for n in a.entry_points}), sorted({n.id for n in a.reached_attack_steps})] for a in g.attackers)}
